@@ -18,4 +18,7 @@ CONSTANTS
   GenMaxBodies = {1000000}
   GenMaxHdrs = {65536}
   GenHeads = {FALSE}
+  LimWidth = 0
+  GzIdx = {1}
+  GzFrs = {"cl"}
 CHECK_DEADLOCK FALSE
